@@ -265,7 +265,7 @@ def main(args):
     ck = Check('C02', args)
     ck.shadow_stats = symx.load().stats
     if ck.tier == 'quick':
-        parts = [('assembly', (g, 2)) for g in ('G2', 'G4', 'G6', 'G8', 'G9', 'G11', 'G15', 'G16', 'G19', 'G20')]
+        parts = [('assembly', (g, 2)) for g in ('G2', 'G4', 'G6', 'G8', 'G9', 'G11', 'G15', 'G16', 'G19', 'G20', 'G21', 'G22')]
     else:
         parts = [('assembly', (g, 3)) for g in catalogue.CAT]
     parts += [('gauss_exact', ())]
